@@ -10,6 +10,7 @@ import numpy as np
 
 import common as C
 import fuzzylite as fl
+from streams import fld_write as S_WRITE
 
 PID = "C18"
 MODULES = ["FlVerif.Props.C18"]
@@ -22,6 +23,7 @@ RULE = ("engines with 1-4 input variables (Mamdani and Takagi-Sugeno) x requeste
         "separators x decimals; reader contents with comments, blank lines, indentation and skipped lines. non-trivial: "
         "more than one grid row and at least two inputs, or a reader text with at least one dropped line; distinct = "
         "distinct (engine shape, scope, v, switches)")
+RULE += (" Stream `fld-write` (fv/streams/fld_write.py): the control flow of FldExporter.write on a recording stub engine (ValueError for too few columns, order of restart / assignments / process, stacked blocks, header) against Op.Fld.write.")
 ASSUMPTIONS = ["printed numbers are compared with the exact grid values within half a unit of the last printed decimal",
                "output columns are compared with the engine's own batch results on the same input rows (text equality)"]
 LEVEL_TEXT = ("Lean theorems about the grid enumeration for ANY number of inputs and ANY size: increment_lex_succ (Op.increment "
@@ -185,6 +187,8 @@ def iroot_py(n, v):
 
 
 def key(case):
+    if case.get("stream"):
+        return case["stream"]
     if case.get("reader") is not None:
         return "reader"
     return f"{case['scope']} n={case['n']}"
@@ -201,6 +205,8 @@ def oracle(case):
 
 def oracle_(case):
     """property oracle, independent of Lean: grid size, equidistant values from minimum to maximum, lexicographic order"""
+    if case.get("stream"):
+        return S_WRITE.oracle(case)       # control flow of FldExporter.write on a recording stub
     if case.get("reader") is not None:
         return oracle_reader(case)
     e, text = export_scope(case)
@@ -385,6 +391,8 @@ def correspond(ctx):
         ok, detail = oracle(case) if kept else (True, "")
         if not ok:
             mism.append({"case": case, "violation": True, "detail": detail, "what": detail})
+    # the control flow of FldExporter.write against Op.Fld.write (model of the code tie), both on a recording stub
+    mism += S_WRITE.run(ctx)
     return mism
 
 
